@@ -28,6 +28,15 @@ CHECKS = {
  "C07": dict(cat="model_checking",
    text="weakly=True branches of p-entailment, System Z, System W, lex_inf (all back-ends) on every weakly consistent symbolic base within the bounds of C01-C04: result must be a Boolean equal to the extended specification (feasible worlds, finite layers); any exception on such a base is a violation. Found and fixed: IndexError without finite layer, z3 back-ends ignoring the infinity layer.",
    ref="3 C07", tech=SYMEX),
+ "C08": dict(cat="model_checking",
+   text="Product programs: for each adjacent pair of the chains p<=Z<=W<=lex and p<=c<=W (all back-end combinations, both modes) both operators are executed symbolically on ONE symbolic base and query inside the same path and the implication between their concrete answers is asserted; every model of a failing path is a counterexample. Bounds N<=3, M<=3 (thorough (3,4),(4,3)). The clause 'bases of any size / shipped corpora' is outside the claim (stated in the evidence).",
+   ref="3 C08, 2.6", tech="symbolic execution of a product program (two real operators on one symbolic input) with the real code and solver stand-ins; assertion over concrete per-path answers; replay on the real stack"),
+ "C09": dict(cat="model_checking",
+   text="Each postulate is a product program over 1-3 related queries built from arbitrary formula tables X0,X1,X2 against one symbolic base on one operator instance: direct inference, reflexivity, supraclassicality, right weakening, And, Or, cautious monotony, Cut, consistency preservation (strict), rational monotony (Z, lex); 7 operator/back-end classes x both modes; vacuity twin: RM for p-entailment must be refuted. Bounds N=2,M=2 (thorough N=3,M=2 / N=2,M=3).",
+   ref="3 C09", tech="symbolic execution of product programs (several related queries on one symbolic base) over the real code; assertion over concrete per-path answers"),
+ "C11": dict(cat="model_checking",
+   text="rc2 (real optimizer.py on a stand-in returning ANY optimal model, hence every correct SAT engine) and z3 back-ends of System W and lex_inf run on the same symbolic base/query in one path and must agree, both modes; c-inference is run twice with independent optimal-model choices and must agree; all engine-name suffixes are pushed through the real suffix handling. Bounds N=2,M<=2(3) at L1, N=3,M=3(4) at L2.",
+   ref="3 C11", tech="symbolic execution of a product program (two back-ends, one symbolic input); solver stand-in with unconstrained optimal-model choice covers all SAT engines"),
 }
 NA = {
  "C10": "ANTLR-generated parser interpreted by the antlr4 runtime: symbolic inputs are concretised at the first DFA lookup, CrossHair gave an unsound 'Confirmed' (DFA-cache nondeterminism) and no verdict in 8 min for |s|<=3; an SMT model of ALL(*) would be a model of the runtime, not the real code (DESIGN.md 3 C10)",
